@@ -183,7 +183,7 @@ func ruleC05(w *World) {
 		}
 	}
 	// ECDSA decoders
-	if f := w.method(ecAlgo, "rawDecodePrivateKey"); f != nil {
+	if f := tailWorker(w.method(ecAlgo, "decodePrivateKey")); f != nil {
 		recv, der := P(f, 0), P(f, 1)
 		N := recv + ".curve.Params().N"
 		nLen := "bitsToBytes(" + N + ".BitLen())"
@@ -207,9 +207,9 @@ func ruleC05(w *World) {
 		w.check(sb, "C05.R2g", fnKey(f)+"/scalar-from-input", f.Pos(), "scalar is the big-endian value of the whole input", "the scalar is not SetBytes of the whole input")
 		w.ruleErrorClauses("C05.R2g", f, map[string][]string{"&heap:d.Cmp(" + N + ") >= 0": {"ctor:invalidInputsErrorf"}, "&heap:d.Sign() == 0": {"ctor:invalidInputsErrorf"}})
 	} else {
-		w.undecided("C05.R2g", "anchor:rawDecodePrivateKey", token.NoPos, "unresolved anchor")
+		w.undecided("C05.R2g", "anchor:ecdsa-decodePrivateKey", token.NoPos, "unresolved anchor")
 	}
-	if f := w.method(ecAlgo, "rawDecodePublicKey"); f != nil {
+	if f := tailWorker(w.method(ecAlgo, "decodePublicKey")); f != nil {
 		recv, der := P(f, 0), P(f, 1)
 		p := recv + ".curve.Params().P"
 		pLen := "bitsToBytes(" + p + ".BitLen())"
@@ -254,7 +254,7 @@ func ruleC05(w *World) {
 		})
 		w.check(halves == 2, "C05.R2g", fnKey(f)+"/halves", f.Pos(), "x and y are the two halves of the input", "x/y are not parsed from the two halves of the input")
 	} else {
-		w.undecided("C05.R2g", "anchor:rawDecodePublicKey", token.NoPos, "unresolved anchor")
+		w.undecided("C05.R2g", "anchor:ecdsa-decodePublicKey", token.NoPos, "unresolved anchor")
 	}
 	if f := w.method(ecAlgo, "decodePublicKeyCompressed"); f != nil {
 		recv, b := P(f, 0), P(f, 1)
@@ -320,6 +320,9 @@ func ruleC05(w *World) {
 					continue
 				}
 				ln := render(ms.Len)
+				if ms.Parent() == rs.fn() {
+					ln = rs.render(ms.Len) // a length handed down as a parameter: what the caller passes
+				}
 				w.check(!strings.Contains(ln, ".Bytes()") && strings.Contains(ln, "bitsToBytes("), "C05.R4", fnKey(f)+"/fixed-width", r.Pos(), "output length depends on curve parameters only: "+ln, "encoding length `"+ln+"` depends on the value being encoded (leading zero bytes would be dropped)")
 				// copies are right-aligned in their field: copy(buf[K-len(b):], b) or copy(buf[K-len(b):K], b)
 				instrsFlat(f, func(ins ssa.Instruction) {
@@ -417,6 +420,18 @@ func ruleC06(w *World) {
 				w.out.Obligations = append(w.out.Obligations, o)
 			}
 		}
+	}
+	// R9: shape of the key generation (share of participant j is P(j+1) in slot j, all participants covered, degree = len(a)-1)
+	w.floor("C06.R9", 8)
+	{
+		var own *types.Var
+		saved := w.out
+		w.out = &Out{Floors: map[string]int{}, Stats: map[string]int{}}
+		if d := w.dkg("C06.R9"); d != nil {
+			own = d.m.idxOwn
+		}
+		w.out = saved
+		w.ruleDealingShape("C06.R9", own)
 	}
 	ts := w.method(T, "ThresholdSignature")
 	if ts == nil {
@@ -744,4 +759,37 @@ func flowsTo(v ssa.Value, target ssa.Value) bool {
 		return false
 	}
 	return walk(v)
+}
+
+
+// tailWorker: the function that does the work of f: f itself, or — when f only hands its parameters on, in order, to one
+// module function and returns its results — that function (thin interface-method wrappers around a worker).
+func tailWorker(f *ssa.Function) *ssa.Function {
+	for i := 0; i < 3 && f != nil; i++ {
+		if len(f.Blocks) != 1 {
+			return f
+		}
+		var call *ssa.Call
+		n := 0
+		for _, ins := range f.Blocks[0].Instrs {
+			switch x := ins.(type) {
+			case *ssa.Call:
+				call = x
+				n++
+			case *ssa.Extract, *ssa.Return, *ssa.DebugRef:
+			default:
+				return f
+			}
+		}
+		if n != 1 || call.Call.StaticCallee() == nil || !inModule(call.Call.StaticCallee()) || call.Call.StaticCallee().Blocks == nil || len(call.Call.Args) != len(f.Params) {
+			return f
+		}
+		for j, a := range call.Call.Args {
+			if a != ssa.Value(f.Params[j]) {
+				return f
+			}
+		}
+		f = call.Call.StaticCallee()
+	}
+	return f
 }
